@@ -254,16 +254,44 @@ def _report(chk, label, results):
                           _features(b["history"], m), b)
 
 
+_PRE = {}
+
+
+def _sim_tlc(chk, consts, label, num, sample):
+    cfgp = os.path.join(chk.scratch, "sim-%s.cfg" % label)
+    with open(cfgp, "w") as f:
+        f.write(_cfg(consts, spec="SSpec", sample=sample))
+    return common.run_tlc(os.path.join(SPECS, "ProxiedCircuit_MBT.tla"), cfgp, workers=1, scratch=chk.scratch,
+                          extra=["-simulate", "num=%d" % num, "-depth", str(consts["Depth"]), "-seed", str(chk.seed + 17)])
+
+
+def _export_tlc(chk, consts, label):
+    cfgp = os.path.join(chk.scratch, "mbt-%s.cfg" % label)
+    with open(cfgp, "w") as f:
+        f.write(_cfg(consts))
+    return common.run_tlc(os.path.join(SPECS, "ProxiedCircuit_MBT.tla"), cfgp, workers=1, scratch=chk.scratch, heap="8g")
+
+
+def _prefetch(chk, plan):
+    """The TLC runs of a tier (single-worker exports and simulations) are independent of each other and of the
+    implementation: start them together, replay in plan order."""
+    import concurrent.futures as cf
+    ex = cf.ThreadPoolExecutor(max_workers=min(len(plan), max(2, common.NCPU // 2)))
+    for item in plan:
+        if item[0] == "sim":
+            _, consts, label, num, sample = item
+            _PRE[label] = ex.submit(_sim_tlc, chk, consts, label, num, sample)
+        else:
+            _PRE[item[2]] = ex.submit(_export_tlc, chk, item[1], item[2])
+    ex.shutdown(wait=False)
+
+
 def _b1_sim(chk: Check, consts, label, num, sample):
     """Sampled deep behaviours (TLC -simulate), each replayed step by step."""
     global _B, _WINDOW, _UNIT
     _WINDOW = consts.get("W") or None
     _UNIT = consts.get("Unit", 1.0)
-    cfgp = os.path.join(chk.scratch, "sim-%s.cfg" % label)
-    with open(cfgp, "w") as f:
-        f.write(_cfg(consts, spec="SSpec", sample=sample))
-    res = common.run_tlc(os.path.join(SPECS, "ProxiedCircuit_MBT.tla"), cfgp, workers=1, scratch=chk.scratch,
-                         extra=["-simulate", "num=%d" % num, "-depth", str(consts["Depth"]), "-seed", str(chk.seed + 17)])
+    res = _PRE.pop(label).result() if label in _PRE else _sim_tlc(chk, consts, label, num, sample)
     m = __import__("re").search(r"The number of states generated: (\d+)", res.out)
     if res.violated or res.errors or not m:
         chk.require_model_ok(res, "ProxiedCircuit simulate " + label)
@@ -288,7 +316,14 @@ def _b1(chk: Check, consts, label, pairs=None):
     global _G, _WINDOW, _UNIT
     _WINDOW = consts.get("W") or None
     _UNIT = consts.get("Unit", 1.0)
-    recs = common.export_records(chk, "ProxiedCircuit_MBT", _cfg(consts), label)
+    if label in _PRE:
+        res = _PRE.pop(label).result()
+        if not res.ok:
+            raise common.MachineryError("ProxiedCircuit_MBT %s export failed:\n%s" % (label, res.out[-3000:]))
+        chk.add_tlc(res, label + " (export)")
+        recs = res.printed()
+    else:
+        recs = common.export_records(chk, "ProxiedCircuit_MBT", _cfg(consts), label)
     # the export run also checked every invariant on every state it generated
     chk.cov["tlc_runs"][-1]["invariants"] = INVS
     g = Graph(recs)
@@ -321,23 +356,32 @@ def run(chk: Check):
                         "virtual clock replaces datetime in hippolyzer.lib.base.message.circuit; resend_unacked is called after every tick",
                         "the configured cadence Circuit.resend_every is 3 model clock units; a unit is 1 s (the default 3.0 s), 0.5 s or 0.25 s depending on the configuration"]
     if chk.tier == "quick":
-        _b1(chk, dict(MaxEp=2, MaxInj=2, MaxAcks=2, Tries=10, Reorder=1, Depth=4, Unit=0.5), "exhaustive-d4")
-        _b1(chk, dict(MinEp=0, MaxEp=1, MaxInj=1, MaxAcks=1, Tries=10, Reorder=1, Depth=3), "from0-d3", pairs=2000)
-        _b1(chk, dict(MaxEp=2, MaxInj=3, MaxAcks=1, Tries=10, Reorder=0, Depth=3, Disps="DispsTakes"), "takes-d3", pairs=2000)
-        _b1_sim(chk, dict(MaxEp=3, MaxInj=3, MaxAcks=2, Tries=10, Reorder=1, Depth=9, Disps="DispsAll"), "simulate-d9", 150, 12)
-        _b1_sim(chk, dict(MinEp=0, MaxEp=2, MaxInj=3, MaxAcks=2, Tries=10, Reorder=1, Depth=9), "simulate-from0-d9", 80, 12)
-        _b1_sim(chk, dict(MaxEp=1, MaxInj=1, MaxAcks=1, Tries=10, Reorder=0, Depth=14, Unit=0.25), "budget-d14", 300, 3)
-        _b1_sim(chk, dict(MaxEp=3, MaxInj=4, MaxAcks=1, Tries=10, Reorder=1, Depth=10, W=1), "evict-W1-d10", 150, 10)
+        plan = [
+            ("b1", dict(MaxEp=2, MaxInj=2, MaxAcks=2, Tries=10, Reorder=1, Depth=4, Unit=0.5), "exhaustive-d4", None),
+            ("b1", dict(MinEp=0, MaxEp=1, MaxInj=1, MaxAcks=1, Tries=10, Reorder=1, Depth=3), "from0-d3", 2000),
+            ("b1", dict(MaxEp=2, MaxInj=3, MaxAcks=1, Tries=10, Reorder=0, Depth=3, Disps="DispsTakes"), "takes-d3", 2000),
+            ("sim", dict(MaxEp=3, MaxInj=3, MaxAcks=2, Tries=10, Reorder=1, Depth=9, Disps="DispsAll"), "simulate-d9", 150, 12),
+            ("sim", dict(MinEp=0, MaxEp=2, MaxInj=3, MaxAcks=2, Tries=10, Reorder=1, Depth=9), "simulate-from0-d9", 80, 12),
+            ("sim", dict(MaxEp=1, MaxInj=1, MaxAcks=1, Tries=10, Reorder=0, Depth=14, Unit=0.25), "budget-d14", 300, 3),
+            ("sim", dict(MaxEp=3, MaxInj=4, MaxAcks=1, Tries=10, Reorder=1, Depth=10, W=1), "evict-W1-d10", 150, 10),
+        ]
     else:
-        # depth 5 with the quick constants is ~10x the depth-4 graph (export alone takes minutes with one worker):
-        # the exhaustive part stays at depth 4 with every merge pair, depth 5 is explored with thinner constants
-        _b1(chk, dict(MaxEp=2, MaxInj=2, MaxAcks=2, Tries=10, Reorder=1, Depth=4, Unit=0.5), "exhaustive-d4", pairs=150000)
-        _b1(chk, dict(MaxEp=2, MaxInj=1, MaxAcks=1, Tries=10, Reorder=0, Depth=5, Unit=0.5), "exhaustive-thin-d5", pairs=40000)
-        _b1(chk, dict(MinEp=0, MaxEp=1, MaxInj=2, MaxAcks=1, Tries=10, Reorder=1, Depth=4), "from0-d4", pairs=40000)
-        _b1_sim(chk, dict(MinEp=0, MaxEp=2, MaxInj=3, MaxAcks=2, Tries=10, Reorder=1, Depth=10), "simulate-from0-d10", 2500, 12)
-        _b1(chk, dict(MaxEp=2, MaxInj=3, MaxAcks=1, Tries=10, Reorder=0, Depth=4, Disps="DispsTakes"), "takes-d4", pairs=40000)
-        _b1_sim(chk, dict(MaxEp=3, MaxInj=3, MaxAcks=2, Tries=10, Reorder=1, Depth=10, Disps="DispsAll"), "simulate-d10", 2500, 12)
-        _b1_sim(chk, dict(MaxEp=1, MaxInj=1, MaxAcks=1, Tries=10, Reorder=0, Depth=16, Unit=0.25), "budget-d16", 5000, 3)
-        _b1_sim(chk, dict(MaxEp=3, MaxInj=4, MaxAcks=1, Tries=10, Reorder=1, Depth=11, W=1), "evict-W1-d11", 2500, 10)
-        _b1_sim(chk, dict(MaxEp=3, MaxInj=5, MaxAcks=1, Tries=10, Reorder=1, Depth=12, W=2), "evict-W2-d12", 2500, 10)
+        # depth 5 with the quick constants is ~10x the depth-4 graph: the exhaustive part stays at depth 4 with
+        # many more merge pairs, depth is explored by the sampled behaviours
+        plan = [
+            ("b1", dict(MaxEp=2, MaxInj=2, MaxAcks=2, Tries=10, Reorder=1, Depth=4, Unit=0.5), "exhaustive-d4", 60000),
+            ("b1", dict(MinEp=0, MaxEp=1, MaxInj=2, MaxAcks=1, Tries=10, Reorder=1, Depth=4), "from0-d4", 20000),
+            ("b1", dict(MaxEp=2, MaxInj=3, MaxAcks=1, Tries=10, Reorder=0, Depth=4, Disps="DispsTakes"), "takes-d4", 20000),
+            ("sim", dict(MaxEp=3, MaxInj=3, MaxAcks=2, Tries=10, Reorder=1, Depth=10, Disps="DispsAll"), "simulate-d10", 700, 12),
+            ("sim", dict(MinEp=0, MaxEp=2, MaxInj=3, MaxAcks=2, Tries=10, Reorder=1, Depth=10), "simulate-from0-d10", 500, 12),
+            ("sim", dict(MaxEp=1, MaxInj=1, MaxAcks=1, Tries=10, Reorder=0, Depth=16, Unit=0.25), "budget-d16", 1500, 3),
+            ("sim", dict(MaxEp=3, MaxInj=4, MaxAcks=1, Tries=10, Reorder=1, Depth=11, W=1), "evict-W1-d11", 600, 10),
+            ("sim", dict(MaxEp=3, MaxInj=5, MaxAcks=1, Tries=10, Reorder=1, Depth=12, W=2), "evict-W2-d12", 600, 10),
+        ]
+    _prefetch(chk, plan)
+    for item in plan:
+        if item[0] == "b1":
+            _b1(chk, item[1], item[2], pairs=item[3])
+        else:
+            _b1_sim(chk, *item[1:])
     chk.cov["exhaustive"] = True
